@@ -136,13 +136,24 @@ enum Expect {
 fn reference(seq: &[&T], mult: i64, target: usize, strat: Strat, range: Range, dbfacts: &[GFact]) -> Expect {
     let mut facts: Vec<GFact> = seq.iter().flat_map(|t| t.ps.iter().filter_map(move |po| po.cost.map(|(r, rc)| GFact { date: t.day, x: po.com, y: rc, rate: Q::parse(r), db: false }))).collect();
     facts.extend_from_slice(dbfacts);
+    if dbfacts.iter().any(|f| f.rate.is_zero() && f.x == target) {
+        // a report INTO a commodity the database prices at exactly zero: a zero price has no reciprocal, and whether an older
+        // or a ledger-derived price of the pair may serve in that direction instead is not fixed by the statement
+        return Expect::DontCare;
+    }
     let mut tie = false;
     let mut convert = |com: usize, v: Q, at: u32| -> Option<Q> {
         if com == target {
             return Some(v);
         }
         // commodities 3 (U) and 4 (V) occur only in price-database lines
-        let acc = refprice_q(5, &facts, com, target, at)?;
+        let acc = refprice_q(5, &facts, com, target, at);
+        if super::c09::zero_reverse_seen() {
+            // a conversion INTO a commodity whose latest price is zero: open (see c09::ZERO_REVERSE_SEEN)
+            tie = true;
+            return Some(Q::ZERO);
+        }
+        let acc = acc?;
         if acc.len() > 1 {
             tie = true;
         }
@@ -238,6 +249,9 @@ fn price_dbs() -> Vec<(&'static str, Vec<GFact>)> {
         ("P 2024/01/10 A 5 U\nP 2024/01/10 U 2 V\nP 2024/01/10 V 3 T\n", chain.clone()),
         ("P 2024/01/10 V 3 T\nP 2024/01/10 A 5 U\nP 2024/01/10 U 2 V\n", chain),
         ("P 2024/01/15 B 4 T\nP 2024/01/10 B 2 T\n", vec![f(D2, 1, 2, "4"), f(D1, 1, 2, "2")]),
+        // a quote of exactly zero is a quote: from day 15 on B is worth 0 T (and nothing can be converted INTO B through it)
+        ("P 2024/01/10 B 2 T\nP 2024/01/15 B 0 T\n", vec![f(D1, 1, 2, "2"), f(D2, 1, 2, "0")]),
+        ("P 2024/01/15 A 0 T\n", vec![f(D2, 0, 2, "0")]),
     ]
 }
 
